@@ -294,6 +294,21 @@ func TestVerifC08(t *testing.T) {
 			}
 		}
 	}
+	// automation certificates while the user / group directory does not answer or errors: an identity that is not a
+	// configured automation user must not be minted on the strength of a failed lookup
+	for _, mode := range []string{"down", "error"} {
+		dir.SetAll(mode)
+		for _, actor := range actors {
+			if !actor.AutoAdmin {
+				continue
+			}
+			for _, ident := range []string{"alice", "root1", "no-such-role", "autobot"} {
+				q := verifRoleMintReq(ident, verifUserECKey().Public(), []string{"10.0.0.0/8"}, []string{"10.0.0.0/8"}, nil)
+				run(actor, "password+U2F", ident, "role-mint-"+map[bool]string{true: "configured", false: "unconfigured"}[ident == "autobot"]+"(directory-"+mode+")", "-", ident == "autobot", q, nil)
+			}
+		}
+	}
+	dir.SetAll("up")
 	// bootstrap OTP issue for a user without tokens: admin only
 	c08Restore(env.DB(), snap)
 	{
